@@ -28,7 +28,26 @@ Contracts (icontract) on array_2d_util.resized_array_2d_from, AbstractArray2D.re
 padded_before_convolution_from / trimmed_after_convolution_from and Mask2D.resized_from see every internal call
 (Imaging.apply_mask -> padded_before_convolution_from -> resized_from -> resized_array_2d_from ...).
 
-VALIDATED
+Validated against (tools/mutant.py, seed 0). Suite stays green (699/699) and the quick tier reports VIOLATION:
+  * `y_max` without `+1` for even inputs (default origin, non-square input; shows for odd targets: last row lost)
+        -> resize.array / resize.grow_shrink + contracts resized_array_2d_from, Array2D/Mask2D.resized_from
+  * centre `int(W/2) - 1` for even W >= 6 of non-square inputs  -> resize.*, pad.embedding + the same contracts
+  * `x_min` computed from resized_shape[0] (odd inputs, non-square targets) -> resize.* + contracts
+  * even -> odd crop moved by one cell (non-square, default origin): still one of the two nearest-centred placements,
+        caught only because enlarging then shrinking back loses a row -> resize.grow_shrink / resize.mask_grow_shrink
+  * mask origin shifted by half a pixel when padding with pad value 1 (= the automatic padding of apply_mask)
+        -> dataset.triples_padded / triples_formula_padded / trim_back, pad.coords_*, contracts
+  * trimming with floor instead of ceil (non-square kernels)  -> contract trimmed_after_convolution_from,
+        padtrim.identity, trim.crop, dataset.trim_back
+  * trimmed_after_convolution_from moves the origin by one pixel for non-square kernels -> same monitors + trim.coords_*
+  * Mask2D.trimmed_array_from uses the row padding for the columns -> padtrim.mask_trimmed_array
+  * zoom_region drops the last column when the unmasked box is > 2 wider than tall -> zoom.window / zoom.region
+  * apply_mask rolls the noise map by one column for tall kernels -> dataset.triples_* (data/noise mis-registered)
+  * noise map rolled after the automatic padding -> unexpected DatasetException inside the domain (dataset.apply_mask)
+  Also caught by quick but already killed by the repository's suite: the unconditional variants of the first four,
+  floor-trimming for all kernels, zoom_region without `+1` for all wide boxes, mask pad value dropped in the top rows.
+  Correctly silent (not a violation of the statement): zoom window clamped at the top of the frame (the window still
+  contains every unmasked pixel with its value; the statement makes no claim about the buffer).
 """
 import itertools
 
